@@ -5,7 +5,7 @@ stream read to a state write that marks the stream exhausted passes a CsvDecoder
 and since a drained csv_core reader stays in its End state, CsvReader::prepare resets/replaces
 the decoder before the next file. Not decided: dialect/type inference, field contents."""
 from .framework import RuleResult
-from .mir import Fn, op_const
+from .mir import Fn, op_const, switch_edges
 
 EXPLANATION = ("Must-pass-through rule on the MIR of glaredb_ext_csv::reader::CsvReader::poll_pull: the decoder is called on every "
                "path between reading the stream and declaring it exhausted (csv_core end-of-input protocol), and "
@@ -80,7 +80,67 @@ def run(ctx):
     res.append(rule_eofonly(facts))
     res.append(rule_fieldutf8(facts))
     res.append(rule_clear(facts))
+    res.append(rule_infer(facts))
     return res
+
+
+# value sets accepted by the candidate types' parsers: A ⊆ B
+INFER_SUBSET = {("Boolean", "Utf8"), ("Int64", "Float64"), ("Int64", "Utf8"), ("Float64", "Utf8"), ("Timestamp", "Utf8")}
+
+
+def rule_infer(facts):
+    """Type inference walks each sampled column through candidate types. When a value is rejected by the current candidate A the
+    candidate moves to B; the values accepted so far under A are not looked at again, so the move is only sound if every value A accepts
+    is accepted by B (Int64 ⊆ Float64 ⊆ Utf8, Boolean ⊆ Utf8 - but 't' is not an Int64). Extracted from the MIR of update_from_input: the
+    transition graph between variants (following the function's self-recursion through arms that always move on)."""
+    from .mir import disc_switches, adt_variants
+    r = RuleResult("C17-INFER", "every candidate-type transition of CSV type inference goes to a type that accepts all values of the type it leaves", floor=3)
+    rec = facts.fn("glaredb_ext_csv::schema::CandidateType::update_from_input")
+    variants = adt_variants(facts, "glaredb_ext_csv::schema::CandidateType")
+    if rec is None or not variants:
+        r.missing_anchor("glaredb_ext_csv::schema::CandidateType::update_from_input")
+        return r
+    fn = Fn(rec)
+    r.functions.add(fn.id)
+    by_disc = {d: n for n, d in variants.items()}
+    sw = [(b, t) for b, pl, t in disc_switches(fn) if pl[0] == 1]
+    if not sw:
+        r.missing_anchor("match on *self in update_from_input")
+        return r
+    b0, t0 = sw[0]
+    assigns = {}
+    for b, i, pl, rv, ln in fn.assigns():
+        if rv[0] == "agg" and rv[1][0] == "adt" and rv[1][1].endswith("schema::CandidateType"):
+            assigns[b] = rv[1][2]
+    edges, always = {}, set()
+    for v, tgt in switch_edges(t0):
+        if v is None or v not in by_disc:
+            continue
+        a = by_disc[v]
+        region = fn.reachable_from(tgt, avoid=[b0])
+        targets = {assigns[b] for b in region if b in assigns}
+        edges[a] = targets
+        # an arm that reassigns on every path to the return always moves on
+        if targets and not any(e in fn.reachable_from(tgt, avoid=[b for b in region if b in assigns]) for e in fn.exits):
+            always.add(a)
+    for a, outs in sorted(edges.items()):
+        # effective targets: follow arms that always move on
+        eff, st = set(), list(outs)
+        while st:
+            x = st.pop()
+            if x in eff:
+                continue
+            eff.add(x)
+            if x in always:
+                st.extend(edges.get(x, ()))
+        final = {x for x in eff if x not in always}
+        for bnm in sorted(final):
+            ok = a == bnm or a == "Unknown" or (a, bnm) in INFER_SUBSET
+            r.inst({"from": a, "to": bnm, "every_value_of_from_accepted_by_to": ok}, ok)
+            if not ok:
+                r.violate(fn.id, f"non-widening-transition:{a}->{bnm}", f"a column that was {a} so far can become {bnm}, but values accepted as {a} are not valid {bnm}: "
+                          "the earlier rows of the sample no longer parse under the inferred type and the scan fails (or mis-types the column)", rec["file"], rec["line"])
+    return r
 
 
 def rule_clear(facts):
